@@ -110,16 +110,18 @@ SnapLine ==
 
 \* ---------------------------------------------------------------- silent steps
 NextIsResumeOf(t) == HaveLine /\ Line.k \in {"res", "cbres"} /\ Line.t = t
-Silent ==
-  /\ Keep
-  /\ \/ ReaperTake \/ ReaperDone
-     \/ \E t \in All : \/ DeliverCancel(t)
-                       \/ Cleanup(t)
-                       \/ Start(t) /\ st'[t] = "done"              \* kill_me decoration refuses the run
-                       \/ NextIsResumeOf(t) /\ (Wake(t) \/ WaitWake(t))
+S_ReaperTake    == Keep /\ ReaperTake
+S_ReaperDone    == Keep /\ ReaperDone
+S_DeliverCancel == Keep /\ \E t \in All : DeliverCancel(t)
+S_Cleanup       == Keep /\ \E t \in All : Cleanup(t)
+S_Refuse        == Keep /\ \E t \in All : Start(t) /\ st'[t] = "done"      \* kill_me decoration refuses the run
+S_Wake          == Keep /\ \E t \in All : NextIsResumeOf(t) /\ Wake(t)
+S_WaitWake      == Keep /\ \E t \in All : NextIsResumeOf(t) /\ WaitWake(t)
+Silent == S_ReaperTake \/ S_ReaperDone \/ S_DeliverCancel \/ S_Cleanup \/ S_Refuse \/ S_Wake \/ S_WaitWake
 
 TNext == SpawnLine \/ SpawnFLine \/ EnvCancelLine \/ XresLine \/ SkipLine \/ EnvSkipLine \/ StartLine \/ OpLine \/ ExcLine \/ ResLine
-         \/ CbLine \/ CbOpLine \/ CbResLine \/ SnapLine \/ Silent
+         \/ CbLine \/ CbOpLine \/ CbResLine \/ SnapLine
+         \/ S_ReaperTake \/ S_ReaperDone \/ S_DeliverCancel \/ S_Cleanup \/ S_Refuse \/ S_Wake \/ S_WaitWake
 TSpec == TInit /\ [][TNext]_tvars
 
 \* furthest line consumed per case (needs -workers 1); registers initialised by the ASSUME
